@@ -54,42 +54,69 @@ Proof.
     exists fs. split; [exact Hrun|]. replace mtu with (mtu - 2 + 2) at 1 by lia. exact Hok.
 Qed.
 
-Lemma h264_nalu_ok mtu st nalu : exists st' fs, h264_nalu mtu st nalu = Ok (st', fs) /\ frags_ok mtu fs.
+(* the held parameter sets are never empty: the callback returns early on an empty unit, and
+   packetizeH264Nalu indexes nalu[0] *)
+Definition held_ok (st : h264pay) : Prop := hp_sps st <> Some [] /\ hp_pps st <> Some [].
+
+Lemma held_ok_fresh d : held_ok (mkH264Pay d None None).
+Proof. split; discriminate. Qed.
+
+Lemma packetize_nalu_ok mtu nalu : nalu <> [] ->
+  exists fs, packetize_nalu mtu nalu = Ok fs /\ frags_ok mtu fs.
 Proof.
-  unfold h264_nalu. destruct nalu as [|b0 body]; [exists st, []; split; [reflexivity|apply frags_ok_nil]|].
+  intros Hne. unfold packetize_nalu. destruct nalu as [|b0 body]; [contradiction|].
+  apply emit_single_or_fua_ok.
+Qed.
+
+Lemma h264_nalu_ok mtu st nalu : held_ok st ->
+  exists st' fs, h264_nalu mtu st nalu = Ok (st', fs) /\ frags_ok mtu fs /\ held_ok st'.
+Proof.
+  intros [Hs Hp].
+  unfold h264_nalu. destruct nalu as [|b0 body];
+    [exists st, []; split; [reflexivity|split; [apply frags_ok_nil|split; assumption]]|].
   destruct (emit_single_or_fua_ok mtu (b0 :: body)) as (fs & Hrun & Hok). rewrite Hrun.
-  assert (Hnil : forall s, exists st' fs0, @Ok (h264pay * list bref) (s, []) = Ok (st', fs0) /\ frags_ok mtu fs0)
-    by (intros s; exists s, []; split; [reflexivity|apply frags_ok_nil]).
-  assert (Hsingle : forall s pre, frags_ok mtu pre ->
-            exists st' fs0, @Ok (h264pay * list bref) (s, pre ++ fs) = Ok (st', fs0) /\ frags_ok mtu fs0)
-    by (intros s pre Hpre; exists s, (pre ++ fs); split; [reflexivity|apply frags_ok_app; assumption]).
-  destruct ((Z.land b0 31 =? 9) || (Z.land b0 31 =? 12)); [apply Hnil|].
+  assert (Hnil : forall s, held_ok s ->
+            exists st' fs0, @Ok (h264pay * list bref) (s, []) = Ok (st', fs0) /\ frags_ok mtu fs0 /\ held_ok st')
+    by (intros s Hh; exists s, []; split; [reflexivity|split; [apply frags_ok_nil|exact Hh]]).
+  assert (Hsingle : forall s pre, held_ok s -> frags_ok mtu pre ->
+            exists st' fs0, @Ok (h264pay * list bref) (s, pre ++ fs) = Ok (st', fs0) /\ frags_ok mtu fs0 /\ held_ok st')
+    by (intros s pre Hh Hpre; exists s, (pre ++ fs); split; [reflexivity|split; [apply frags_ok_app; assumption|exact Hh]]).
+  assert (Hst : held_ok st) by (split; assumption).
+  destruct ((Z.land b0 31 =? 9) || (Z.land b0 31 =? 12)); [apply Hnil, Hst|].
   destruct (Z.land b0 31 =? 7).
-  { destruct (negb (hp_disable_stapa st)); [apply Hnil|apply (Hsingle st []), frags_ok_nil]. }
+  { destruct (negb (hp_disable_stapa st)); [apply Hnil; split; [discriminate|exact Hp]|apply (Hsingle st []); [exact Hst|apply frags_ok_nil]]. }
   destruct (Z.land b0 31 =? 8).
-  { destruct (negb (hp_disable_stapa st)); [apply Hnil|apply (Hsingle st []), frags_ok_nil]. }
-  destruct (negb (hp_disable_stapa st)); [|apply (Hsingle st []), frags_ok_nil].
-  destruct (hp_sps st) as [sps|]; [|apply (Hsingle st []), frags_ok_nil].
-  destruct (hp_pps st) as [pps|]; [|apply (Hsingle st []), frags_ok_nil].
-  apply Hsingle.
-  match goal with |- context [if ?c then _ else _] => destruct c eqn:E end; [|apply frags_ok_nil].
-  apply frags_ok_one. split; [|lia]. rewrite zlen_cons. pose proof (zlen_nonneg (put16 (u16 (zlen sps)) ++ sps ++ put16 (u16 (zlen pps)) ++ pps)). lia.
+  { destruct (negb (hp_disable_stapa st)); [apply Hnil; split; [exact Hs|discriminate]|apply (Hsingle st []); [exact Hst|apply frags_ok_nil]]. }
+  destruct (negb (hp_disable_stapa st)); [|apply (Hsingle st []); [exact Hst|apply frags_ok_nil]].
+  destruct (hp_sps st) as [sps|] eqn:Esps; [|apply (Hsingle st []); [split; [rewrite Esps; discriminate|exact Hp]|apply frags_ok_nil]].
+  destruct (hp_pps st) as [pps|] eqn:Epps; [|apply (Hsingle st []); [split; [rewrite Esps; exact Hs|rewrite Epps; discriminate]|apply frags_ok_nil]].
+  match goal with |- context [if ?c then _ else _] => destruct c eqn:E end.
+  - apply Hsingle; [apply held_ok_fresh|].
+    apply frags_ok_one. split; [|lia]. rewrite zlen_cons.
+    pose proof (zlen_nonneg (put16 (u16 (zlen sps)) ++ sps ++ put16 (u16 (zlen pps)) ++ pps)). lia.
+  - destruct (packetize_nalu_ok mtu sps ltac:(intros ->; apply Hs; reflexivity)) as (f1 & -> & Hok1).
+    destruct (packetize_nalu_ok mtu pps ltac:(intros ->; apply Hp; reflexivity)) as (f2 & -> & Hok2).
+    apply Hsingle; [apply held_ok_fresh|apply frags_ok_app; assumption].
 Qed.
 
-Lemma h264_nalus_ok mtu : forall nalus st,
-  exists st' fs, h264_nalus mtu st nalus = Ok (st', fs) /\ frags_ok mtu fs.
+Lemma h264_nalus_ok mtu : forall nalus st, held_ok st ->
+  exists st' fs, h264_nalus mtu st nalus = Ok (st', fs) /\ frags_ok mtu fs /\ held_ok st'.
 Proof.
-  induction nalus as [|n t IH]; intros st; cbn [h264_nalus];
-    [exists st, []; split; [reflexivity|apply frags_ok_nil]|].
-  destruct (h264_nalu_ok mtu st n) as (st1 & fs1 & H1 & Hok1). rewrite H1.
-  destruct (IH st1) as (st2 & fs2 & H2 & Hok2). rewrite H2.
-  exists st2, (fs1 ++ fs2). split; [reflexivity|apply frags_ok_app; assumption].
+  induction nalus as [|n t IH]; intros st Hst; cbn [h264_nalus];
+    [exists st, []; split; [reflexivity|split; [apply frags_ok_nil|exact Hst]]|].
+  destruct (h264_nalu_ok mtu st n Hst) as (st1 & fs1 & H1 & Hok1 & Hst1). rewrite H1.
+  destruct (IH st1 Hst1) as (st2 & fs2 & H2 & Hok2 & Hst2). rewrite H2.
+  exists st2, (fs1 ++ fs2). split; [reflexivity|split; [apply frags_ok_app; assumption|exact Hst2]].
 Qed.
 
-Theorem h264_frags_ok st mtu p : exists st' fs, h264_payload st mtu p = Ok (st', fs) /\ frags_ok mtu fs.
+(* for every state a payloader can be in (fresh, or after any history of calls: held_ok is
+   preserved), every MTU and every input *)
+Theorem h264_frags_ok st mtu p : held_ok st ->
+  exists st' fs, h264_payload st mtu p = Ok (st', fs) /\ frags_ok mtu fs /\ held_ok st'.
 Proof.
-  unfold h264_payload. destruct p as [[|b l]|]; try (exists st, []; split; [reflexivity|apply frags_ok_nil]).
-  apply h264_nalus_ok.
+  intros Hst.
+  unfold h264_payload. destruct p as [[|b l]|]; try (exists st, []; split; [reflexivity|split; [apply frags_ok_nil|exact Hst]]).
+  apply h264_nalus_ok, Hst.
 Qed.
 
 (* ---- VP9 ---- *)
